@@ -3243,14 +3243,20 @@ func (c *pipelineConnClient) reader(conn net.Conn, stopCh <-chan struct{}, chs *
 			}
 		}
 		skipBody := w.resp.SkipBody
-		if w.req.Header.IsHead() {
-			// The response to a HEAD request has no body, whatever its
-			// Content-Length says.
-			w.resp.SkipBody = true
-		}
+		streamBody := w.resp.StreamBody
+		// The response to a HEAD request has no body, whatever its
+		// Content-Length says. Every other body has to leave the reader here,
+		// whatever the caller asked for: the responses to the requests behind
+		// this one follow it on the same connection.
+		w.resp.SkipBody = w.req.Header.IsHead()
+		w.resp.StreamBody = false
 		err = w.resp.Read(br)
-		// Raised for this exchange only: the caller may reuse resp for a GET.
+		// Changed for this exchange only: the caller may reuse resp.
 		w.resp.SkipBody = skipBody
+		w.resp.StreamBody = streamBody
+		if err == nil && skipBody {
+			w.resp.ResetBody()
+		}
 		if err != nil {
 			w.err = err
 			w.done <- struct{}{}
